@@ -91,7 +91,7 @@ func init() {
 			add(encSpec("enc j6 6blk+tail state-caching", 6, 6, 100, -1, "cache", -1))
 			add(encSpec("enc j8 8blk+tail state-caching", 8, 8, 100, -1, "cache", -1))
 			add(encSpec("enc j5 5blk+tail unbounded", 5, 5, 100, -1, "sleep", -1))
-			add(encSpec("enc j4 8blk+tail unbounded (two full batches + tail)", 4, 8, 100, -1, "sleep", -1))
+			add(encSpec("enc j4 8blk+tail state-caching (two full batches + tail)", 4, 8, 100, -1, "cache", -1))
 			add(encSpec("enc j3 4blk+tail plain bound3", 3, 4, 100, -1, "bounded", 3))
 			s = encSpec("enc j3 BWT/ANS0 4blk+tail", 3, 4, 100, -2, "sleep", -1)
 			s.Transform, s.Entropy = "BWT", "ANS0"
